@@ -67,6 +67,13 @@ Fixpoint remove_first_sinf (l : list sechild) : list sechild :=
   | c :: t => if is_sinf c then t else c :: remove_first_sinf t
   end.
 
+(* text after the fix commit: the sinf that is removed is the one that is returned, b.Sinf = the LAST sinf child *)
+Fixpoint remove_last_sinf (l : list sechild) : list sechild :=
+  match l with
+  | [] => []
+  | c :: t => if is_sinf c && negb (existsb is_sinf t) then t else c :: remove_last_sinf t
+  end.
+
 (* b.Sinf is the LAST sinf child added *)
 Fixpoint last_sinf (l : list sechild) (acc : option sinf_t) : option sinf_t :=
   match l with
@@ -75,8 +82,16 @@ Fixpoint last_sinf (l : list sechild) (acc : option sinf_t) : option sinf_t :=
   | _ :: t => last_sinf t acc
   end.
 
-(* (Visual|Audio)SampleEntryBox.RemoveEncryption, as used by DecryptInit on an entry named encv / enca *)
+(* (Visual|Audio)SampleEntryBox.RemoveEncryption, as used by DecryptInit on an entry named encv / enca (text
+   after the fix: the returned sinf is the one removed) *)
 Definition remove_encryption (se : sentry) : res (sentry * sinf_t) :=
+  match last_sinf (se_children se) None with
+  | None => Err
+  | Some s => Ok (mkSE (se_kind se) (si_frma s) (remove_last_sinf (se_children se)), s)
+  end.
+
+(* the pinned text: the FIRST sinf child is removed, frma / schm / tenc are read from the LAST *)
+Definition remove_encryption_pinned (se : sentry) : res (sentry * sinf_t) :=
   match last_sinf (se_children se) None with
   | None => Err
   | Some s => Ok (mkSE (se_kind se) (si_frma s) (remove_first_sinf (se_children se)), s)
